@@ -92,10 +92,10 @@ Spec == Init /\ [][Next]_<<vars, last>>
 DictLike == [][ /\ (last'.op.op = "new" => \A i \in DOMAIN last'.op.ps :
                         (\A j \in DOMAIN last'.op.ps : j > i => last'.op.ps[j][1] # last'.op.ps[i][1])
                             => M'[last'.op.ps[i][1]] = last'.op.ps[i][2])
-                /\ (last'.op.op = "store" => M'[last'.op.k] = last'.op.v) ]_vars
+                /\ (last'.op.op = "store" => M'[last'.op.k] = last'.op.v) ]_<<vars, last>>
 IterAscending == [][ last'.op.op = "iter" =>
                        /\ \A i, j \in DOMAIN last'.ret : i < j => last'.ret[i] < last'.ret[j]
-                       /\ {last'.ret[i] : i \in DOMAIN last'.ret} = Keys ]_vars
+                       /\ {last'.ret[i] : i \in DOMAIN last'.ret} = Keys ]_<<vars, last>>
 
 Obs == [built |-> built, keys |-> Sorted(Keys), vals |-> [i \in DOMAIN Sorted(Keys) |-> M[Sorted(Keys)[i]]]]
 Hid == 0
